@@ -94,6 +94,9 @@ func genC01(seed uint64, tier string) any {
 	// fault events, after a warm-up, several possibly in flight at once
 	nev := r.Intn(maxEv + 1)
 	at := 3000 + r.Intn(20000)
+	if r.Bool(0.3) {
+		at += r.Range(60000, 400000) // a mesh that has been up for a while: high sequence numbers
+	}
 	stopped := map[string]int{}
 	for e := 0; e < nev && len(p.Links) > 0; e++ {
 		at += r.Intn(15000)
@@ -110,9 +113,12 @@ func genC01(seed uint64, tier string) any {
 			ev.Kind, ev.Link = "silent", simnet.Pick(r, p.Links).Name
 		case x < 72:
 			ev.Kind, ev.Link, ev.Arg = "silent1", simnet.Pick(r, p.Links).Name, r.Intn(2)
-		case x < 82:
+		case x < 76:
 			ev.Kind, ev.Node = "stop", simnet.Pick(r, p.Nodes)
 			stopped[ev.Node] = at
+		case x < 86:
+			// stop and come back 1.5-6 s later with a new epoch (and a sequence number starting over)
+			ev.Kind, ev.Node, ev.Arg = "restart", simnet.Pick(r, p.Nodes), r.Range(1500, 6000)
 		case x < 92:
 			ev.Kind, ev.Node = "start", simnet.Pick(r, p.Nodes)
 			if t0, ok := stopped[ev.Node]; ok && at-t0 < 1500 {
@@ -206,7 +212,15 @@ func runC01(t *testing.T, planAny any, res *simnet.Result) {
 					n.Stop()
 					kinds["stop"] = true
 				}
-			case "start":
+			case "start", "restart":
+				if ev.Kind == "restart" {
+					if n := m.Nodes[ev.Node]; n != nil && n.Up() {
+						n.Stop()
+						time.Sleep(time.Duration(ev.Arg) * time.Millisecond)
+					} else {
+						continue
+					}
+				}
 				if n := m.Nodes[ev.Node]; n != nil && !n.Up() {
 					n.Start()
 					w.Count("fault_node_restart", 1)
